@@ -1451,11 +1451,383 @@ class Topo(Stream):
         return case
 
 
+# ----------------------------------------------------------------------------------------------
+# stream: further ways in (round 4) -- element classes, constructor keywords, read-back + update, histories on one
+# element, a Labels object shared by two elements, edited serialized text, direct attribute assignment followed
+# by attaching the object, list values with non-string elements, keywords that name a method
+# ----------------------------------------------------------------------------------------------
+
+SAFE_ATTR_KWS = ['to_json', 'to_dict', 'list_fields', 'update', 'from_json']      # methods of Labels / Capacities
+ELEM_CLASSES = ['NodeSliver', 'ComponentSliver', 'InterfaceSliver', 'NetworkServiceSliver']
+
+
+def c_lelem(x):
+    if isinstance(x, str):
+        return '(LE_str %s)' % cstr(x)
+    if isinstance(x, (bool, int, float)):
+        return '(LE_int %s)' % cZ(int(x))
+    return 'LE_bad'
+
+
+def c_outcome(o):
+    if o in ('stored', 'skipped'):
+        return 'KW_' + o
+    return '(KW_err %s)' % cexn(o)
+
+
+def valid_kws(rng, nmax=2):
+    out = []
+    for f in rng.sample(ALL_FIELDS, rng.choice([1, 1, nmax])):
+        for _try in range(30):
+            v = member(f, rng)
+            if documented(f, v):
+                out.append([f, v if rng.random() < 0.7 else [v]])
+                break
+    return out
+
+
+class Entry(Topo):
+    name = 'entry'
+    shard = 120
+    rule = ('labels through set_properties / .labels= / update_labels on node, component, interface and network service; '
+            'constructor keywords add_node/add_component/add_network_service(labels=); Labels.update of a value read back; '
+            'histories accepted-rejected-accepted on one element; one Labels object attached to two elements; a serialized model '
+            'whose text was edited; direct attribute assignment then attach; non-string list elements; method names as keywords; '
+            'distinct by case')
+
+    def gen(self, rng, tier):
+        n = 260 if tier == 'quick' else 3000
+        lab = LabelsStream()
+        out = []
+        for _ in range(n):
+            k = rng.choice(['elem_labels', 'elem_labels', 'ctor_kw', 'readback_update', 'history', 'shared', 'edited_text',
+                            'assign_attach', 'assign_attach', 'mixed', 'mixed', 'attr_kw'])
+            kws = [kv for kv in lab.gen_kws(rng) if kv[1] is not None and kv[0] in ALL_FIELDS]
+            if k == 'elem_labels':
+                out.append({'kind': k, 'cls': rng.choice(ELEM_CLASSES), 'how': rng.choice(['attr', 'set_property', 'set_properties', 'update_labels']),
+                            'base': valid_kws(rng) if rng.random() < 0.5 else [], 'kws': kws})
+            elif k == 'ctor_kw':
+                out.append({'kind': k, 'cls': rng.choice(['NodeSliver', 'ComponentSliver', 'NetworkServiceSliver']), 'kws': kws})
+            elif k == 'readback_update':
+                out.append({'kind': k, 'cls': rng.choice(ELEM_CLASSES), 'base': valid_kws(rng), 'kws': kws})
+            elif k == 'history':
+                bad = [kv for kv in lab.gen_kws(rng, bad_bias=1.0) if kv[1] is not None and kv[0] in ALL_FIELDS]
+                out.append({'kind': k, 'cls': rng.choice(ELEM_CLASSES), 'base': valid_kws(rng), 'bad': bad, 'kws': valid_kws(rng)})
+            elif k == 'shared':
+                out.append({'kind': k, 'base': valid_kws(rng), 'kws': valid_kws(rng)})
+            elif k == 'edited_text':
+                f = rng.choice(['vlan', 'asn', 'mac', 'ipv4', 'usb_id', 'region', 'bgp_key', 'inner_vlan'])
+                v = gen_value(f, rng)
+                if any(ord(c) < 32 or ord(c) > 126 or c in '"\\<>&\'' for c in v):     # keep the text edit trivial
+                    v = member(f, rng) + 'x'
+                    if any(ord(c) < 32 or ord(c) > 126 or c in '"\\<>&\'' for c in v):
+                        v = 'zz'
+                out.append({'kind': k, 'field': f, 'v': v})
+            elif k == 'assign_attach':
+                f = rng.choice(ALL_FIELDS)
+                v = gen_value(f, rng)
+                out.append({'kind': k, 'base': valid_kws(rng) if rng.random() < 0.5 else [], 'field': f,
+                            'v': v if rng.random() < 0.7 else [member(f, rng), v], 'how': rng.choice(['attr', 'set_property', 'set_properties', 'ctor_kw'])})
+            elif k == 'mixed':
+                f = rng.choice(['numa', 'numa', 'local_name', 'instance', 'device_name', 'vlan', 'asn', 'mac', 'vlan_range', 'zz_unknown'])
+                l = [rng.choice([5, 7, -1, 8, 0, True, 7.9, None, [1], 'x', '3', member(f if f in ALL_FIELDS else 'numa', rng)])
+                     for _ in range(rng.choice([1, 2, 3]))]
+                if all(isinstance(x, str) for x in l):
+                    l.append(rng.choice([5, None, 1.5]))
+                out.append({'kind': k, 'entry': rng.choice([0, 1, 2]), 'k': f, 'l': l})
+            else:
+                out.append({'kind': 'attr_kw', 'what': rng.choice(['labels', 'labels', 'caps']), 'entry': rng.choice([0, 2]),
+                            'k': rng.choice(SAFE_ATTR_KWS), 'forgiving': rng.random() < 0.5})
+        return out
+
+    def corpus(self):
+        out = [{'kind': 'assign_attach', 'base': [['vlan', '5']], 'field': 'vlan', 'v': 'junk\n', 'how': 'attr'},
+               {'kind': 'assign_attach', 'base': [], 'field': 'mac', 'v': '00:11:22:33:44:55', 'how': 'set_properties'},
+               {'kind': 'mixed', 'entry': 0, 'k': 'numa', 'l': [5]}, {'kind': 'mixed', 'entry': 2, 'k': 'local_name', 'l': [1, None]},
+               {'kind': 'mixed', 'entry': 1, 'k': 'numa', 'l': ['1', 7.9]}, {'kind': 'mixed', 'entry': 0, 'k': 'vlan', 'l': ['5', 5]},
+               {'kind': 'attr_kw', 'what': 'labels', 'entry': 0, 'k': 'to_json', 'forgiving': False},
+               {'kind': 'attr_kw', 'what': 'labels', 'entry': 2, 'k': 'to_json', 'forgiving': True},
+               {'kind': 'attr_kw', 'what': 'caps', 'entry': 0, 'k': 'to_json', 'forgiving': False},
+               {'kind': 'edited_text', 'field': 'vlan', 'v': '99999'}, {'kind': 'edited_text', 'field': 'vlan', 'v': '77'},
+               {'kind': 'shared', 'base': [['vlan', '5']], 'kws': [['vlan', '6']]},
+               {'kind': 'history', 'cls': 'NodeSliver', 'base': [['vlan', '5']], 'bad': [['vlan', '5\n']], 'kws': [['mac', '00:11:22:33:44:55']]}]
+        for cls in ELEM_CLASSES:
+            for how in ('attr', 'set_property', 'set_properties', 'update_labels'):
+                out.append({'kind': 'elem_labels', 'cls': cls, 'how': how, 'base': [], 'kws': [['vlan', '7\n']]})
+                out.append({'kind': 'elem_labels', 'cls': cls, 'how': how, 'base': [['asn', '5']], 'kws': [['vlan', ['7', '8']]]})
+        return out + kept_corpus('entry')
+
+    @staticmethod
+    def read_labels(x):
+        l = x.labels
+        return labels_fields_of(l) if l is not None else []
+
+    def observe_on(self, case, t, el):
+        from fim.slivers.capacities_labels import Labels, Capacities
+        from fim.user import ServiceType, ComponentModelType
+        k = case['kind']
+        n = el['NodeSliver']
+        D = lambda kws: {a: b for a, b in kws}
+        try:
+            if k in ('elem_labels', 'readback_update', 'history'):
+                x = el[case['cls']]
+                if case['base']:
+                    x.labels = Labels(**D(case['base']))
+                elif x.labels is not None:
+                    x.unset_property('labels')           # interfaces come with a local_name label: start from none
+                before = self.read_labels(x)
+                mid = None
+                if k == 'history':
+                    try:
+                        x.update_labels(**D(case['bad']))
+                        mid = 'accepted'
+                    except Exception as e:
+                        mid = type(e).__name__
+                    if self.read_labels(x) != before and mid != 'accepted':
+                        return {'err': 'ChangedByRejectedUpdate'}
+                    before = self.read_labels(x)
+                err = None
+                try:
+                    kws = D(case['kws'])
+                    how = case.get('how', 'update_labels')
+                    if k == 'readback_update':
+                        cur = x.labels
+                        x.labels = Labels.update(cur, **kws) if cur is not None else Labels(**kws)
+                    elif how == 'update_labels':
+                        x.update_labels(**kws)
+                    elif how == 'attr':
+                        x.labels = Labels(**kws)
+                    elif how == 'set_property':
+                        x.set_property('labels', Labels(**kws))
+                    else:
+                        x.set_properties(labels=Labels(**kws))
+                except Exception as e:
+                    err = type(e).__name__
+                return {'err_or_none': err, 'before': before, 'after': self.read_labels(x), 'mid': mid}
+            if k == 'ctor_kw':
+                err, after = None, []
+                try:
+                    lab = Labels(**D(case['kws']))
+                    if case['cls'] == 'NodeSliver':
+                        x = t.add_node(name='ctor-kw-node', site='S1', labels=lab)
+                    elif case['cls'] == 'ComponentSliver':
+                        x = n.add_component(name='ctor-kw-comp', model_type=ComponentModelType.GPU_RTX6000, labels=lab)
+                    else:
+                        x = t.add_network_service(name='ctor-kw-svc', nstype=ServiceType.L2Bridge, interfaces=[], labels=lab)
+                    after = self.read_labels(x)
+                except Exception as e:
+                    err = type(e).__name__
+                return {'err_or_none': err, 'before': [], 'after': after}
+            if k == 'shared':
+                n2 = t.nodes['fixture-node2']
+                l = Labels(**D(case['base']))
+                n.labels = l
+                n2.labels = l
+                n.update_labels(**D(case['kws']))
+                return {'err_or_none': None, 'before': [], 'after': self.read_labels(n2), 'first': self.read_labels(n),
+                        'object': labels_fields_of(l)}
+            if k == 'edited_text':
+                from fim.user.topology import ExperimentTopology
+                n.labels = Labels(**{case['field']: PLACEHOLDER[case['field']]})
+                text = t.serialize()
+                needle = PLACEHOLDER[case['field']]
+                if text.count(needle) != 1:
+                    return {'err': 'PlaceholderNotUnique'}
+                text = text.replace(needle, case['v'])
+                try:
+                    t2 = ExperimentTopology(graph_string=text)
+                    x = t2.nodes[FIX['NodeSliver']]
+                    after = self.read_labels(x)
+                    x.get_sliver()
+                    return {'err_or_none': None, 'before': [], 'after': after}
+                except Exception as e:
+                    return {'err_or_none': type(e).__name__, 'before': [], 'after': []}
+            if k == 'assign_attach':
+                l = Labels(**D(case['base']))
+                setattr(l, case['field'], case['v'])
+                wrote, rerr = True, None
+                x = n
+                try:
+                    if case['how'] == 'attr':
+                        n.labels = l
+                    elif case['how'] == 'set_property':
+                        n.set_property('labels', l)
+                    elif case['how'] == 'set_properties':
+                        n.set_properties(labels=l)
+                    else:
+                        x = t.add_node(name='ctor-kw-node', site='S1', labels=l)
+                except Exception as e:
+                    wrote = type(e).__name__
+                if wrote is True:
+                    try:
+                        self.read_labels(x)
+                        x.get_sliver()
+                    except Exception as e:
+                        rerr = type(e).__name__
+                return {'wrote': wrote, 'read_err': rerr}
+            if k == 'mixed':
+                kw = {case['k']: case['l']}
+                if case['entry'] == 0:
+                    o = Labels(**kw)
+                elif case['entry'] == 1:
+                    o = Labels.update(Labels(), **kw)
+                else:
+                    o = Labels.from_json(json.dumps(kw))
+                return {'outcome': 'stored' if o.__dict__.get(case['k']) == case['l'] and case['k'] in ALL_FIELDS else 'skipped'}
+            if k == 'attr_kw':
+                if case['what'] == 'labels':
+                    o = Labels(**{case['k']: 'x'}) if case['entry'] == 0 else Labels.from_json(json.dumps({case['k']: 'x'}))
+                else:
+                    o = Capacities()
+                    o._set_fields(forgiving=case['forgiving'], **{case['k']: 5})
+                return {'outcome': 'stored' if case['k'] in o.__dict__ else 'skipped'}
+        except Exception as e:
+            if k in ('mixed', 'attr_kw'):
+                return {'outcome': type(e).__name__}
+            return {'err': type(e).__name__}
+
+    @staticmethod
+    def effective(case, o):
+        """a history whose middle update was (legitimately) accepted continues from base + that update"""
+        if case['kind'] == 'history' and o.get('mid') == 'accepted':
+            d = {a: b for a, b in case['base']}
+            d.update({a: b for a, b in case['bad']})
+            case = dict(case)
+            case['base'] = [[f, d[f]] for f in ALL_FIELDS if f in d]
+        return case
+
+    def to_coq(self, case, o):
+        k = case['kind']
+        if 'err' in o:
+            return 'T_setname [] [] [] false [1]%N [] None'
+        case = self.effective(case, o)
+        if k in ('elem_labels', 'readback_update', 'history', 'ctor_kw', 'shared', 'edited_text'):
+            if k == 'edited_text':
+                e = 'E_from_json %s' % c_kvs([[case['field'], case['v']]])
+            elif k == 'shared':
+                e = 'E_ctor %s' % c_kvs(case['base'])      # the second element keeps what was attached to it
+            elif k != 'ctor_kw' and case['base'] and not (k == 'elem_labels' and case['how'] != 'update_labels'):
+                e = 'E_update %s %s' % (c_kvs(case['base']), c_kvs(case['kws']))
+            else:
+                e = 'E_ctor %s' % c_kvs(case['kws'])
+            if o['err_or_none']:
+                ob = 'LO_err %s' % cexn(o['err_or_none'])
+            else:
+                ob = 'LO_ok %s (Some %s)' % (c_kvs(o['after']), c_kvs(o['after']))
+            return 'T_labels (%s, %s)' % (e, ob)
+        if k == 'assign_attach':
+            return 'T_extra (X_assign_attach %s %s %s %s)' % (c_kvs(case['base']), cstr(case['field']), c_lval(case['v']), cbool(o['wrote'] is True))
+        if k == 'mixed':
+            return 'T_extra (X_mixed %s %s %s %s)' % (cN(case['entry']), cstr(case['k']), clist([c_lelem(x) for x in case['l']]), c_outcome(o['outcome']))
+        if case['what'] == 'labels':
+            return 'T_extra (X_attr %s %s)' % (cN(case['entry']), c_outcome(o['outcome']))
+        return 'T_extra (X_caps_attr %s %s)' % (cbool(case['forgiving']), c_outcome(o['outcome']))
+
+    def oracle(self, case, o):
+        k = case['kind']
+        if 'err' in o:
+            return 'entry point misbehaved: ' + o['err']
+        lab = LabelsStream()
+        if k == 'history' and o.get('mid') == 'accepted' and lab.expected({'entry': 'update', 'base': case['base'], 'kws': case['bad']})[0] == 'reject':
+            return 'an out-of-domain update was accepted in the middle of a history'
+        case = self.effective(case, o)
+        if k in ('elem_labels', 'readback_update', 'history', 'ctor_kw'):
+            upd = k != 'ctor_kw' and case['base'] and not (k == 'elem_labels' and case['how'] != 'update_labels')
+            exp = lab.expected({'entry': 'update' if upd else 'ctor', 'base': case['base'] if upd else [], 'kws': case['kws']})
+            if k == 'history' and o.get('mid') == 'accepted' and lab.expected({'entry': 'update', 'base': case['base'], 'kws': case['bad']})[0] == 'reject':
+                return 'an out-of-domain update was accepted in the middle of a history'
+            if o['err_or_none'] is None:
+                if exp[0] == 'reject':
+                    return 'labels stored through %s although %s' % (k, exp[1])
+                if o['after'] != exp[1]:
+                    return 'labels read back after %s differ from the values given' % k
+            else:
+                if exp[0] == 'ok':
+                    return 'in-domain labels rejected through %s (%s)' % (k, o['err_or_none'])
+                if o['after'] != o['before']:
+                    return 'labels changed by a rejected %s' % k
+            return None
+        if k == 'shared':
+            want = lab.expected({'entry': 'ctor', 'base': [], 'kws': case['base']})[1]
+            if o['after'] != want or o['object'] != want:
+                return 'updating one element changed the labels of the other element / of the shared object'
+            if o['first'] != lab.expected({'entry': 'update', 'base': case['base'], 'kws': case['kws']})[1]:
+                return 'update_labels on the first element did not give base + changes'
+            return None
+        if k == 'edited_text':
+            good = documented(case['field'], case['v'])
+            if o['err_or_none'] is None and not good:
+                return 'an out-of-domain %s value in edited model text is surfaced without complaint: %r' % (case['field'], o['after'])
+            if o['err_or_none'] is not None and good:
+                return 'an in-domain value in edited model text is rejected (%s)' % o['err_or_none']
+            if good and o['after'] != [[case['field'], case['v']]]:
+                return 'value read from edited text differs'
+            return None
+        if k == 'assign_attach':
+            xs = case['v'] if isinstance(case['v'], list) else [case['v']]
+            good = all(documented(case['field'], x) for x in xs)
+            if o['wrote'] is True and not good:
+                return 'a value assigned directly to a Labels attribute entered the model unchecked (reading the element back: %s)' % (o['read_err'] or 'no complaint')
+            if o['wrote'] is not True and good:
+                return 'an in-domain directly assigned value was rejected on attach (%s)' % o['wrote']
+            return None
+        if k == 'mixed':
+            if o['outcome'] == 'stored':
+                return 'a list with a non-string element was stored as a %s label: %r' % (case['k'], case['l'])
+            return None
+        if o['outcome'] == 'stored':
+            return 'a keyword naming the method %s was stored on the %s object' % (case['k'], case['what'])
+        return None
+
+    def known_signature(self, case, o, why):
+        return 'entry:%s:%s' % (case['kind'], why or '')
+
+    def histogram(self, cases, obs):
+        h = {}
+        for c, o in zip(cases, obs):
+            r = o.get('err') or o.get('outcome') or (('wrote' in o) and ('wrote' if o['wrote'] is True else o['wrote'])) or o.get('err_or_none') or 'ok'
+            k = '%s:%s' % (c['kind'], r)
+            h[k] = h.get(k, 0) + 1
+        return h
+
+    def describe(self, case, o):
+        return {'case': case, 'impl': o}
+
+    def shrink(self, case, failing):
+        case = json.loads(json.dumps(case))
+        if case['kind'] == 'assign_attach' and isinstance(case['v'], str):
+            def f(t_):
+                c2 = dict(case)
+                c2['v'] = t_
+                return failing(c2)
+            case['v'] = shrink_string(case['v'], f)
+            if case['base']:
+                c2 = dict(case)
+                c2['base'] = []
+                if failing(c2):
+                    case = c2
+        if case['kind'] == 'mixed':
+            while len(case['l']) > 1:
+                for i in range(len(case['l'])):
+                    c2 = dict(case)
+                    c2['l'] = case['l'][:i] + case['l'][i + 1:]
+                    if any(not isinstance(x, str) for x in c2['l']) and failing(c2):
+                        case = c2
+                        break
+                else:
+                    break
+        return case
+
+
+PLACEHOLDER = {'vlan': '1234', 'inner_vlan': '1235', 'asn': '64999', 'mac': '0a:1b:2c:3d:4e:5f', 'ipv4': '10.99.88.77',
+               'usb_id': '1a2b:3c4d', 'region': 'placeholder-region', 'bgp_key': 'placeholder-key'}
+
+
 class C16(Check):
     pid = 'C16'
     translators = ['gen_caps', 'gen_labels']
     model_targets = ['Model/Labels16.vo']
-    streams = [Prims(), LabelsStream(), Misc(), Topo()]
+    streams = [Prims(), LabelsStream(), Misc(), Topo(), Entry()]
     trusted_base = [
         'Coq 8.16.1 kernel (coqc), vm_compute for the correspondence evaluation; no native_compute',
         'Print Assumptions of every C16 theorem: Closed under the global context (no axioms)',
@@ -1470,13 +1842,25 @@ class C16(Check):
         'asserts are assumed enabled (python -O would remove the Capacities and boot-script checks)',
     ]
     def refuted_witnesses(self):
+        st = Entry()
+
         def handle_name():
-            st = Topo()
+            tp = Topo()
             case = {'kind': 'set', 'cls': 'NodeSliver', 'v': 'x'}
-            o = st.observe(case)
+            o = tp.observe(case)
             still = o.get('err_or_none') is not None and o.get('handle') == 'x' and o.get('graph') == FIX['NodeSliver']
             return still, {'case': case, 'impl': o}
-        return [('C16_handle_name_full_or_refuted', handle_name)]
+
+        def replay(case):
+            def run():
+                o = st.observe(case)
+                return st.oracle(case, o) is not None, {'case': case, 'impl': o}
+            return run
+        return [('C16_handle_name_full_or_refuted', handle_name),
+                ('C16_nonstring_elements_full_or_refuted', replay({'kind': 'mixed', 'entry': 0, 'k': 'numa', 'l': [5]})),
+                ('C16_nonfield_keyword_full_or_refuted', replay({'kind': 'attr_kw', 'what': 'labels', 'entry': 0, 'k': 'to_json', 'forgiving': False})),
+                ('C16_capacity_nonfield_keyword_full_or_refuted', replay({'kind': 'attr_kw', 'what': 'caps', 'entry': 0, 'k': 'to_json', 'forgiving': False})),
+                ('C16_entry_point_table_full_or_refuted', replay({'kind': 'assign_attach', 'base': [], 'field': 'vlan', 'v': 'junk', 'how': 'attr'}))]
 
     assumptions = [
         'label values are str, list of str, None or another scalar (a list with non-string elements is outside the modelled domain)',
